@@ -30,6 +30,13 @@ def check(ctx):
         found = vlib.generic_stateful_stream(ctx, "queue", "queue", n, length, sig)
     else:
         ctx.failed_obligations.append("harness-build")
+    # follow-ups at the level of the running system: a change committed while the task that
+    # would pick it up is in the running state (scenarios in corpus/system-c09)
+    if vlib.build_harness(ctx, ["system"]):
+        traces = vlib.corpus_traces(ctx, "system", corpus="system-c09")
+        found = vlib.judge_traces(ctx, "system", "sysreq", traces, sig) or found
+    else:
+        ctx.failed_obligations.append("harness-build")
     vlib.obligations_broken(ctx, found)
     ctx.assumptions += [
         "list_keys iteration order is arbitrary (model is non-deterministic over it)",
